@@ -239,16 +239,16 @@ def repo_root():
     return os.path.realpath(os.environ.get('VERIF_REPO', '/repo'))
 
 
-def install(contracts=True):
-    """Attach every monitor. Idempotent. Returns dict of what was attached."""
-    if _INSTALLED['done']:
+def install_types(contracts=True):
+    """Stage 1: everything that lives in mosromgr.mostypes / moselements / utils.xml."""
+    if _INSTALLED.get('types'):
         return _INSTALLED['info']
     import mosromgr
     import mosromgr.mostypes as mt
     import mosromgr.moselements as me
-    import mosromgr.moscollection as mc
     import mosromgr.utils.xml as ux
-    info = {'file': os.path.realpath(mosromgr.__file__), 'attached': []}
+    info = _INSTALLED.setdefault('info', {'attached': []})
+    info['file'] = os.path.realpath(mosromgr.__file__)
     want = repo_root()
     info['from_expected_tree'] = info['file'].startswith(want + os.sep)
 
@@ -269,32 +269,51 @@ def install(contracts=True):
             setattr(mt, name, w)
         info['attached'].append('prim:' + name)
 
-    # warning emission points
+    # warning emission point
     import warnings as real_warnings
-    for mod, where in ((mt, 'mostypes'), (mc, 'moscollection')):
-        if getattr(mod, 'warnings', None) is real_warnings:
-            mod.warnings = WarnProxy(real_warnings, where)
-            info['attached'].append('warnings@' + where)
-        else:
-            info.setdefault('missing', []).append('warnings@' + where)
+    if getattr(mt, 'warnings', None) is real_warnings:
+        mt.warnings = WarnProxy(real_warnings, 'mostypes')
+        info['attached'].append('warnings@mostypes')
+    else:
+        info.setdefault('missing', []).append('warnings@mostypes')
 
     # classification entry points
     for name, kind in (('from_string', 'string'), ('from_file', 'file'), ('from_s3', 's3')):
         _wrap_classmethod(mt.MosFile, name, kind)
         info['attached'].append('MosFile.' + name)
 
-    # collection merge
-    ORIG['coll_merge'] = mc.MosCollection.merge
-    mc.MosCollection.merge = _make_coll_merge(ORIG['coll_merge'])
-    info['attached'].append('MosCollection.merge')
-
     if contracts:
         from . import contracts as C
         info['contracts'] = C.attach(mt, me)
-
-    _INSTALLED['done'] = True
-    _INSTALLED['info'] = info
+    _INSTALLED['types'] = True
     return info
+
+
+def install_collection():
+    """Stage 2: mosromgr.moscollection."""
+    if _INSTALLED.get('coll'):
+        return _INSTALLED['info']
+    import mosromgr.moscollection as mc
+    info = _INSTALLED.setdefault('info', {'attached': []})
+    import warnings as real_warnings
+    if getattr(mc, 'warnings', None) is real_warnings:
+        mc.warnings = WarnProxy(real_warnings, 'moscollection')
+        info['attached'].append('warnings@moscollection')
+    else:
+        info.setdefault('missing', []).append('warnings@moscollection')
+    ORIG['coll_merge'] = mc.MosCollection.merge
+    mc.MosCollection.merge = _make_coll_merge(ORIG['coll_merge'])
+    info['attached'].append('MosCollection.merge')
+    _INSTALLED['coll'] = True
+    return info
+
+
+def install(contracts=True):
+    """Attach every monitor. Idempotent. Returns dict of what was attached."""
+    install_types(contracts)
+    install_collection()
+    _INSTALLED['done'] = True
+    return _INSTALLED['info']
 
 
 def install_fake_s3(fake):
